@@ -779,3 +779,232 @@ Proof.
       destruct (csl_step c s it); [discriminate|reflexivity] end.
   - vm_compute. repeat split.
 Qed.
+
+(* ================================================================== future ids are never dangling *)
+Definition csl_pc_ids (pc : csl_pc) : list nat :=
+  match pc with
+  | CslLLU _ f | CslLRE _ f _ | CslGLU _ f | CslGRE _ f _ | CslRLP _ _ f | CslGFW f | CslXAU _ f => [f]
+  | CslLSH _ r n | CslLSJ r n | CslLAU r (Some n) => [r; n]
+  | CslLAU r None => [r]
+  | CslRPU _ _ f p | CslRPE _ _ f p _ => [f; p]
+  | _ => []
+  end.
+
+Definition csl_mvalid (m : c_state) : Prop :=
+  (forall k f, c_lookup (c_map m) k = Some f -> f < length (c_futs m)) /\
+  (forall f p, cs_fpred m f = Some p -> p < length (c_futs m)).
+
+Definition csl_tvalid (L : nat) (t : csl_thread) : Prop :=
+  (forall f, In f (csl_pc_ids (lt_pc t)) -> f < L) /\ (forall x, lt_last t = Some x -> x < L).
+
+Definition csl_valid (s : csl_state) : Prop :=
+  csl_mvalid (csl_m s) /\ forall i t, nth_error (csl_cl s) i = Some t -> csl_tvalid (length (c_futs (csl_m s))) t.
+
+Lemma csl_mvalid_new_entry m k pred :
+  csl_mvalid m -> (forall p, pred = Some p -> p < length (c_futs m)) -> csl_mvalid (cs_new_entry m k pred).
+Proof.
+  intros [Hm Hp] Hpred. split; cbn [cs_new_entry cs_with c_map c_futs]; rewrite app_length; cbn [length].
+  - intros k' f. rewrite c_lookup_update. destruct (Z.eqb k k'); [intros H; inversion H; lia|].
+    intros H. specialize (Hm _ _ H). lia.
+  - intros f p. unfold cs_fpred. cbn [c_futs cs_with].
+    match goal with |- context [c_get ?l f] => destruct (c_get l f) as [y|] eqn:Hy end; [|discriminate].
+    apply c_get_app_inv in Hy. destruct Hy as [Hy|[_ ->]].
+    + intros H. assert (cs_fpred m f = Some p) by (unfold cs_fpred; rewrite Hy; exact H). specialize (Hp _ _ H0). lia.
+    + cbn [c_fpred]. intros H. specialize (Hpred _ H). lia.
+Qed.
+
+Lemma csl_mvalid_set_entry m k v e now : csl_mvalid m -> csl_mvalid (cs_set_entry m k v e now).
+Proof.
+  intros [Hm Hp]. split; cbn [cs_set_entry cs_with c_map c_futs]; rewrite app_length; cbn [length].
+  - intros k' f. rewrite c_lookup_update. destruct (Z.eqb k k'); [intros H; inversion H; lia|].
+    intros H. specialize (Hm _ _ H). lia.
+  - intros f p. unfold cs_fpred. cbn [c_futs cs_with].
+    match goal with |- context [c_get ?l f] => destruct (c_get l f) as [y|] eqn:Hy end; [|discriminate].
+    apply c_get_app_inv in Hy. destruct Hy as [Hy|[_ ->]].
+    + intros H. assert (cs_fpred m f = Some p) by (unfold cs_fpred; rewrite Hy; exact H). specialize (Hp _ _ H0). lia.
+    + cbn [c_fpred]. discriminate.
+Qed.
+
+Lemma csl_mvalid_same m m' :
+  c_futs m' = c_futs m -> (forall k f, c_lookup (c_map m') k = Some f -> c_lookup (c_map m) k = Some f) ->
+  csl_mvalid m -> csl_mvalid m'.
+Proof.
+  intros Hf Hmap [Hm Hp]. split.
+  - intros k f H. rewrite Hf. eapply Hm. eapply Hmap. exact H.
+  - intros f p. unfold cs_fpred. rewrite Hf. apply Hp.
+Qed.
+
+Lemma csl_mvalid_store_done m f r : csl_mvalid m -> csl_mvalid (cs_store_done m f r) /\ length (c_futs (cs_store_done m f r)) = length (c_futs m).
+Proof.
+  intros [Hm Hp]. unfold cs_store_done. destruct (c_get (c_futs m) f) as [x|] eqn:Hx; [|split; [split; assumption|reflexivity]].
+  pose proof (c_get_lt _ _ _ Hx) as Hlt. cbn [c_futs cs_with]. split; [|apply c_setfut_length; exact Hlt].
+  split; cbn [c_map c_futs cs_with]; rewrite c_setfut_length by exact Hlt; [exact Hm|].
+  intros g p. unfold cs_fpred. cbn [c_futs cs_with]. rewrite c_get_setfut by exact Hlt.
+  destruct (Nat.eqb_spec g f) as [->|Hne].
+  - cbn [c_fpred]. intros H. apply (Hp f p). unfold cs_fpred. rewrite Hx. exact H.
+  - apply Hp.
+Qed.
+
+Lemma csl_mvalid_store_pred m f : csl_mvalid m -> csl_mvalid (cs_store_pred_nil m f) /\ length (c_futs (cs_store_pred_nil m f)) = length (c_futs m).
+Proof.
+  intros [Hm Hp]. unfold cs_store_pred_nil. destruct (c_get (c_futs m) f) as [x|] eqn:Hx; [|split; [split; assumption|reflexivity]].
+  pose proof (c_get_lt _ _ _ Hx) as Hlt. cbn [c_futs cs_with]. split; [|apply c_setfut_length; exact Hlt].
+  split; cbn [c_map c_futs cs_with]; rewrite c_setfut_length by exact Hlt; [exact Hm|].
+  intros g p. unfold cs_fpred. cbn [c_futs cs_with]. rewrite c_get_setfut by exact Hlt.
+  destruct (Nat.eqb_spec g f) as [->|Hne].
+  - cbn [c_fpred]. discriminate.
+  - apply Hp.
+Qed.
+
+(* one client step keeps the memory valid, never shrinks the arena, and leaves the thread with valid ids *)
+Lemma csl_cstep_valid cfg m t :
+  csl_mvalid m -> csl_tvalid (length (c_futs m)) t ->
+  let r := csl_cstep cfg m t in
+  csl_mvalid (lr_m r) /\ length (c_futs m) <= length (c_futs (lr_m r)) /\
+  (forall f, In f (csl_pc_ids (lr_pc r)) -> f < length (c_futs (lr_m r))) /\
+  (forall x, lr_last r = Some x -> x < length (c_futs (lr_m r))).
+Proof.
+  intros Hmv [Hids Hlast]. cbv zeta. pose proof Hmv as [Hmap Hpred].
+  assert (Hc : forall k pred ret,
+    (forall p, pred = Some p -> p < length (c_futs m)) -> (forall p, ret = Some p -> p < length (c_futs m)) ->
+    let r := csl_create cfg m (lt_last t) k pred ret in
+    csl_mvalid (lr_m r) /\ length (c_futs m) <= length (c_futs (lr_m r)) /\
+    (forall f, In f (csl_pc_ids (lr_pc r)) -> f < length (c_futs (lr_m r))) /\
+    (forall x, lr_last r = Some x -> x < length (c_futs (lr_m r)))).
+  { intros k pred ret Hp Hr. cbv zeta. unfold csl_create.
+    destruct (csl_ord cfg); cbn [lr_m lr_pc lr_last csl_park]; (split; [apply csl_mvalid_new_entry; assumption|]);
+      cbn [cs_new_entry cs_with c_futs]; rewrite app_length; cbn [length csl_pc_ids]; (split; [lia|]);
+      (split; [|intros x Hx; specialize (Hlast x Hx); lia]);
+      intros f [<-|[<-|[]]]; try lia; destruct ret as [p|]; try lia; specialize (Hr p eq_refl); lia. }
+  destruct t as [prog pc last]. unfold csl_cstep. cbn [lt_pc lt_prog lt_last] in *.
+  assert (Hsame : forall pc' last', (forall f, In f (csl_pc_ids pc') -> f < length (c_futs m)) ->
+            (forall x, last' = Some x -> x < length (c_futs m)) ->
+            csl_mvalid m /\ length (c_futs m) <= length (c_futs m) /\
+            (forall f, In f (csl_pc_ids pc') -> f < length (c_futs m)) /\ (forall x, last' = Some x -> x < length (c_futs m))).
+  { intros pc' last' H1 H2. split; [exact Hmv|]. split; [lia|]. split; assumption. }
+  destruct pc as [|k|k|k f|k f past|k r n|r next|r n|k|k|k f|k f past| |x|w k f|w k f p|w k f p past|w x
+                  |k v e|k v e|k v e now|k v e now| ]; cbn [csl_pc_ids] in Hids.
+  - destruct prog as [|[k|k|k v e| ] rest]; try (apply Hsame; [intros ? []|exact Hlast]).
+    destruct last as [x|]; apply Hsame; try exact Hlast; [|intros ? []].
+    intros f [<-|[]]. apply Hlast. reflexivity.
+  - apply Hsame; [intros ? []|exact Hlast].
+  - destruct (c_lookup (c_map m) k) as [f|] eqn:Hk.
+    + apply Hsame; [|exact Hlast]. intros g [<-|[]]. eapply Hmap; eauto.
+    + apply Hc; discriminate.
+  - destruct (cs_fdone m f) as [[[? ?] ?]|]; (apply Hsame; [|exact Hlast]); intros g [<-|[]]; apply Hids; left; reflexivity.
+  - destruct (cs_status_of (csl_exp cfg) past (cs_err_of m f)).
+    + apply Hc; discriminate.
+    + apply Hsame; [|exact Hlast]. intros g [<-|[]]; apply Hids; left; reflexivity.
+    + apply Hc; intros p H; inversion H; subst; apply Hids; left; reflexivity.
+    + apply Hc; discriminate.
+  - cbn [lr_m lr_pc lr_last csl_park cs_enqueue cs_with c_futs csl_pc_ids].
+    split; [eapply csl_mvalid_same; [reflexivity| |exact Hmv]; auto|]. split; [lia|]. split; [|exact Hlast].
+    intros g [<-|[]]. apply Hids. left. reflexivity.
+  - destruct next as [n|].
+    + apply Hsame; [|exact Hlast]. intros g Hg. apply Hids. exact Hg.
+    + apply Hsame; cbn [lr_pc lr_last csl_ret csl_pc_ids]; [intros ? []|].
+      intros x Hx. inversion Hx; subst. apply Hids. left. reflexivity.
+  - cbn [lr_m lr_pc lr_last csl_ret cs_enqueue cs_with c_futs csl_pc_ids].
+    split; [eapply csl_mvalid_same; [reflexivity| |exact Hmv]; auto|]. split; [lia|]. split; [intros ? []|].
+    intros x Hx. inversion Hx; subst. apply Hids. left. reflexivity.
+  - apply Hsame; [intros ? []|exact Hlast].
+  - destruct (c_lookup (c_map m) k) as [f|] eqn:Hk; (apply Hsame; [|exact Hlast]); [|intros ? []].
+    intros g [<-|[]]. eapply Hmap; eauto.
+  - destruct (cs_fdone m f) as [[[? ?] ?]|]; (apply Hsame; [|exact Hlast]); intros g [<-|[]]; apply Hids; left; reflexivity.
+  - destruct (cs_status_of (csl_exp cfg) past (cs_err_of m f)); (apply Hsame; [|exact Hlast]); try (intros ? []; fail);
+      intros g [<-|[]]; apply Hids; left; reflexivity.
+  - apply Hsame; cbn [lr_pc lr_last csl_ret csl_pc_ids]; [intros ? []|exact Hlast].
+  - destruct (cs_fdone m x) as [[[? ?] ?]|]; (apply Hsame; cbn [lr_pc lr_last csl_ret csl_pc_ids]; [intros ? []|exact Hlast]).
+  - destruct (cs_fpred m f) as [p|] eqn:Hp; (apply Hsame; [|exact Hlast]).
+    + intros g [<-|[<-|[]]]; [apply Hids; left; reflexivity|eapply Hpred; eauto].
+    + intros g [<-|[]]. apply Hids; left; reflexivity.
+  - destruct (cs_fdone m p) as [[[? ?] ?]|]; (apply Hsame; [|exact Hlast]).
+    + intros g Hg. apply Hids. exact Hg.
+    + intros g [<-|[]]. apply Hids; left; reflexivity.
+  - destruct (cs_status_of (csl_exp cfg) past (cs_err_of m p)); (apply Hsame; [|exact Hlast]);
+      intros g [<-|[]]; apply Hids; cbn; auto.
+  - destruct w.
+    + apply Hsame; [|exact Hlast]. intros g Hg. apply Hids. exact Hg.
+    + apply Hsame; cbn [lr_pc lr_last csl_ret csl_pc_ids]; [intros ? []|].
+      intros y Hy. inversion Hy; subst. apply Hids. left. reflexivity.
+  - apply Hsame; [intros ? []|exact Hlast].
+  - apply Hsame; [intros ? []|exact Hlast].
+  - apply Hsame; [intros ? []|exact Hlast].
+  - cbn [lr_m lr_pc lr_last csl_park csl_pc_ids]. split; [apply csl_mvalid_set_entry; exact Hmv|].
+    cbn [cs_set_entry cs_with c_futs]. rewrite app_length. cbn [length]. split; [lia|]. split; [intros ? []|].
+    intros x Hx. specialize (Hlast x Hx). lia.
+  - apply Hsame; cbn [lr_pc lr_last csl_ret csl_pc_ids]; [intros ? []|exact Hlast].
+Qed.
+
+Lemma csl_wstep_valid cfg s w pick v e m' w' tk' :
+  csl_wstep cfg s w pick v e = Some (m', w', tk') -> csl_mvalid (csl_m s) ->
+  csl_mvalid m' /\ length (c_futs m') = length (c_futs (csl_m s)).
+Proof.
+  unfold csl_wstep. intros Hs Hmv.
+  destruct w as [|f|f v0 e0 now|f v0 e0 now|j|j|j k f rest|j k f past rest|j].
+  - destruct pick.
+    + destruct (csl_tk s); [|discriminate]. inversion Hs; subst. auto.
+    + destruct (c_queue (csl_m s)) as [|f q]; [discriminate|]. inversion Hs; subst. split; [|reflexivity].
+      apply (csl_mvalid_same (csl_m s)); [reflexivity| |exact Hmv]. auto.
+  - inversion Hs; subst. auto.
+  - inversion Hs; subst. apply csl_mvalid_store_done. exact Hmv.
+  - inversion Hs; subst. apply csl_mvalid_store_pred. exact Hmv.
+  - destruct (csl_locked cfg s j); [discriminate|]. inversion Hs; subst. auto.
+  - inversion Hs; subst. auto.
+  - destruct (cs_fdone (csl_m s) f) as [[[? ?] u]|]; inversion Hs; subst; auto.
+  - inversion Hs; subst. destruct (cs_status_of (csl_exp cfg) past (cs_err_of (csl_m s) f)); auto.
+    split; [|reflexivity]. apply (csl_mvalid_same (csl_m s)); [reflexivity| |exact Hmv].
+    intros k0 f0. cbn [c_map cs_with]. rewrite c_lookup_remove. destruct (Z.eqb k k0); [discriminate|auto].
+  - inversion Hs; subst. auto.
+Qed.
+
+Lemma csl_tvalid_mono L L' t : L <= L' -> csl_tvalid L t -> csl_tvalid L' t.
+Proof. intros Hle [H1 H2]. split; intros x Hx; [specialize (H1 x Hx)|specialize (H2 x Hx)]; lia. Qed.
+
+Lemma csl_valid_step cfg s it s' ev : csl_valid s -> csl_step cfg s it = Some (s', ev) -> csl_valid s'.
+Proof.
+  intros [Hmv Htv] H. destruct it as [i|i pick v e| |dt]; cbn [csl_step] in H.
+  - destruct (nth_error (csl_cl s) i) as [t|] eqn:Hn; [|discriminate].
+    destruct (csl_cblocked cfg s t); [discriminate|]. inversion H; subst; clear H.
+    destruct (csl_cstep_valid cfg (csl_m s) t Hmv (Htv i t Hn)) as [Hm' [Hle [Hids Hlast]]].
+    split; [exact Hm'|]. intros j tj Hj. cbn [csl_cl csl_m] in *. rewrite csl_upd_nth in Hj.
+    destruct (Nat.eqb j i).
+    + rewrite Hn in Hj. inversion Hj; subst. split; [exact Hids|exact Hlast].
+    + eapply csl_tvalid_mono; [exact Hle|]. eapply Htv; eauto.
+  - destruct (nth_error (csl_wk s) i) as [w|] eqn:Hn; [|discriminate].
+    destruct (csl_wstep cfg s w pick v e) as [[[m' w'] tk']|] eqn:Hw; [|discriminate]. inversion H; subst; clear H.
+    destruct (csl_wstep_valid cfg s w pick v e m' w' tk' Hw Hmv) as [Hm' Hlen].
+    split; [exact Hm'|]. cbn [csl_cl csl_m]. rewrite Hlen. exact Htv.
+  - inversion H; subst; clear H. split; assumption.
+  - destruct (Z.ltb dt 0); [discriminate|]. inversion H; subst; clear H. split; [|exact Htv].
+    apply (csl_mvalid_same (csl_m s)); [reflexivity| |exact Hmv]. auto.
+Qed.
+
+Lemma csl_valid_run cfg run : forall s s', csl_valid s -> csl_run cfg s run = Some s' -> csl_valid s'.
+Proof.
+  induction run as [|it r IH]; intros s s' Hi H; cbn [csl_run] in H; [inversion H; subst; exact Hi|].
+  destruct (csl_step cfg s it) as [[s1 ev]|] eqn:Hs; [|discriminate].
+  eapply IH; [|exact H]. eapply csl_valid_step; eauto.
+Qed.
+
+Lemma csl_valid_init m0 par progs : csl_mvalid m0 -> csl_valid (csl_init_on m0 par progs).
+Proof.
+  intros Hm. split; [exact Hm|]. intros i t Hn. cbn [csl_init_on csl_cl] in Hn. apply nth_error_In in Hn.
+  apply in_map_iff in Hn. destruct Hn as [p [<- _]]. split; [intros ? []|discriminate].
+Qed.
+
+Lemma csl_mvalid_init : csl_mvalid c_init.
+Proof. split; [intros k f H; discriminate|]. intros f p. unfold cs_fpred, c_get. cbn. destruct f; discriminate. Qed.
+
+(* in a reachable state a client waits only for futures of the arena: the "dangling id" branch of
+   [csl_complete] never decides whether a waiter is enabled *)
+Lemma csl_waiters_valid cfg m0 par progs history s i t x :
+  csl_mvalid m0 -> csl_run cfg (csl_init_on m0 par progs) history = Some s ->
+  nth_error (csl_cl s) i = Some t -> lt_pc t = CslGFW x ->
+  exists y, c_get (c_futs (csl_m s)) x = Some y.
+Proof.
+  intros Hm Hrun Hn Hpc.
+  destruct (csl_valid_run cfg history _ _ (csl_valid_init m0 par progs Hm) Hrun) as [_ Htv].
+  destruct (Htv i t Hn) as [Hids _]. rewrite Hpc in Hids. specialize (Hids x (or_introl eq_refl)).
+  unfold c_get. destruct (nth_error (c_futs (csl_m s)) x) eqn:E; [eauto|]. apply nth_error_None in E. lia.
+Qed.
